@@ -1,17 +1,29 @@
-"""C06 -- static group (see checks/static.py, spec/Static.tla, spec/Trace_Static.tla)."""
-from . import static
+"""C06 -- entry points exist exactly for defined, non-overridden kinds and forward calls."""
+import time
 
-NOTE = {
-    "C06": "all 2^6 override subsets x migrate x reply x replies-feature x generic (1024 items) expanded by the real entry_points macro "
-           "in-process; the set of emitted functions and the token hash of each (twin comparison) judged by TLC",
-    "C13": "attribute placements on item/handler/helper/handler-parameter/helper-parameter for all three macros, plus every annotated item "
-           "of sylvia/tests, sylvia/examples and examples/ ; re-emitted item compared with the input skeleton; determinism within and across processes",
-    "C15": "all assignments of argument/response type shapes over the type parameters to instantiate/exec/query handlers; parameter lists and "
-           "bounds of every generated message type judged by TLC",
-    "C17": "all ordered pairs of marker-attribute sites (type of a kind, handler variant, handler argument) for contracts and interfaces; "
-           "occurrences of each marker in the generated message types judged by TLC",
-}
+from .. import common
+from ..common import read_ndjson
+from . import routing, static
+
+NOTE = ("(a) all 2^6 override subsets x migrate x reply x replies-feature x generic, plus the same overrides declared in the opposite order, expanded by "
+        "the real entry_points macro in-process: set of emitted functions and per-function token hashes (an override must not alter another entry "
+        "point) judged by TLC; (b) the routing corpus incl. programs O1-O7 with user-supplied entry point functions: every document goes through "
+        "the generated entry point functions (context and outcome forwarded) and through the multitest Contract impl (an overridden kind reaches the "
+        "user's function, the others the generated code)")
 
 
 def run(prop, tier, seed, replay):
-    return static.run_property(prop, tier, seed, NOTE[prop], with_real=False, second_run=False)
+    t0 = time.time()
+    rep = common.Report(prop)
+    sp = static.pipeline(prop, tier, seed, ["ep"])
+    sv = static.validate(prop, sp, rep)
+    rp = routing.pipeline(tier, seed)
+    rv = routing.validate(prop, rp, rep)
+    rc = rep.finish()
+    evs = read_ndjson(sp["trace"])
+    cov = {"states": sp["model"]["distinct"] + rp["model"]["distinct"], "transitions": sp["model"]["generated"] + rp["model"]["generated"],
+           "traces_validated_against_impl": len(evs) + len(rp["progs"]),
+           "configurations_expanded_in_process": len(sp["items"]), "programs_compiled": len(rp["progs"]), "trace_events": rv["events"],
+           "samples": [static.slim(evs[0])] + routing.samples(rp, 1)[:1], "exhaustive": True, "explanation": NOTE}
+    common.write_evidence(prop, tier, seed, cov, time.time() - t0, len(rep.violations))
+    return rc
